@@ -1,4 +1,5 @@
-(* C19: the statements of Props/C19.v, phrased on `to_cnf C n = Ok F`. *)
+(* C19: the statements of Props/C19.v, phrased on `to_cnf C n = Ok F` (the code after the repair
+   F20), and the witnesses about `to_cnf_v0` (the code before it). *)
 From Coq Require Import List ZArith Bool Lia Permutation.
 From DD Require Import Model.Circuit Model.ToCnf Proofs.PassLemmas Proofs.Enum Proofs.Semantics
   Proofs.DetCert Proofs.ToCnfBase Proofs.ToCnfInv Proofs.ToCnfRoot Proofs.ToCnfSem Proofs.ToCnfMain
@@ -6,29 +7,41 @@ From DD Require Import Model.Circuit Model.ToCnf Proofs.PassLemmas Proofs.Enum P
 Import ListNotations.
 Open Scope Z_scope.
 
-Lemma run_no_true_false len C st st' : run len C st = Done st' -> no_true_false C = true.
+(* ---------- the repaired walk never panics on a well-indexed vector ---------- *)
+
+Lemma run_total len (C : circuit) :
+  (forall nd, In nd C -> forallb (fun c => Nat.ltb c len) (children nd) = true) ->
+  forall st, exists st', run len C st = Done st'.
 Proof.
-  revert st. induction C as [|nd C IH]; intros st H; [reflexivity|].
-  cbn [run] in H. destruct (step len st nd) as [st1|p] eqn:E; [|discriminate].
-  unfold no_true_false. cbn [forallb]. apply andb_true_iff. split; [|exact (IH st1 H)].
-  destruct nd; try reflexivity; cbn in E; discriminate.
+  induction C as [|nd C IH]; intros H st; [now exists st|].
+  cbn [run]. destruct (step_total len st nd (H nd (or_introl eq_refl))) as [st1 ->].
+  apply IH. intros nd' Hnd'. apply H. now right.
 Qed.
 
-Theorem ok_no_true_false C n F : to_cnf C n = Ok F -> no_true_false C = true.
+Theorem to_cnf_total (C : circuit) (n : nat) : idx_ok C = true -> exists F, to_cnf C n = Ok F.
 Proof.
-  intros H. destruct (to_cnf_ok_inv C n F H) as [st [Hrun _]]. exact (run_no_true_false _ _ _ _ Hrun).
+  intros Hok. unfold to_cnf.
+  destruct (run_total (length C) C) with (st := init_state n) as [st ->].
+  - intros nd Hnd. destruct (In_nth C nd FalseN Hnd) as [i [Hi <-]].
+    apply forallb_forall. intros c Hc. apply Nat.ltb_lt.
+    pose proof (idx_ok_nth C i FalseN Hok Hi c Hc). lia.
+  - destruct (ts_idx st =? Z.of_nat n + 1); eexists; reflexivity.
 Qed.
 
 Lemma wf_lits_range C n l :
-  WF C n -> all_reachable C = true -> In (Lit l) C -> 1 <= Z.abs l <= Z.of_nat n.
+  CWF C n -> all_reachable C = true -> In (Lit l) C -> 1 <= Z.abs l <= Z.of_nat n.
 Proof. intros HWF Hr H. destruct (wf_lits_ok C n HWF Hr l H) as [H0 H1]. lia. Qed.
 
 Section Top.
 Variables (C : circuit) (n : nat) (F : cnf).
-Hypothesis HWF : WF C n.
+Hypothesis Hne : C <> [].
+Hypothesis Hok : idx_ok C = true.
+Hypothesis Hcomp : complete C n = true.
 Hypothesis Hreach : all_reachable C = true.
 Hypothesis Hn : (2 <= n)%nat.
 Hypothesis HF : to_cnf C n = Ok F.
+
+Let HWF : CWF C n := conj Hne (conj Hok Hcomp).
 
 Lemma F_final : exists st, run (length C) C (init_state n) = Done st /\ F = final_cnf st.
 Proof.
@@ -75,18 +88,66 @@ Qed.
 Theorem tseitin_projection : Permutation (map (firstn n) (cnf_models F)) (Models C n).
 Proof. destruct F_final as [st [Hrun ->]]. exact (final_projection C n st HWF Hreach Hn Hrun). Qed.
 
-Theorem tseitin_equicount : Z.of_nat (length (cnf_models F)) = root_count C.
-Proof. destruct F_final as [st [Hrun ->]]. exact (final_count C n st HWF Hreach Hn Hrun). Qed.
+Theorem tseitin_equicount_models : Z.of_nat (length (cnf_models F)) = MC C n.
+Proof. destruct F_final as [st [Hrun ->]]. exact (final_count_models C n st HWF Hreach Hn Hrun). Qed.
 
 End Top.
+
+(* the cached root count: needs the d-DNNF properties, i.e. the whole C01 bundle WF *)
+Theorem tseitin_equicount (C : circuit) (n : nat) (F : cnf) :
+  WF C n -> all_reachable C = true -> (2 <= n)%nat -> to_cnf C n = Ok F ->
+  Z.of_nat (length (cnf_models F)) = root_count C.
+Proof.
+  intros HWF Hreach Hn HF. rewrite (count_is_MC C n HWF).
+  exact (tseitin_equicount_models C n F (wf_nonempty C n HWF) (wf_idx C n HWF) (wf_complete C n HWF)
+           Hreach Hn HF).
+Qed.
+
+(* ---------- the code before the repair F20: to_cnf_v0 ---------- *)
+
+Lemma run_v0_no_true_false len C st st' : run_v0 len C st = Done st' -> no_true_false C = true.
+Proof.
+  revert st. induction C as [|nd C IH]; intros st H; [reflexivity|].
+  cbn [run_v0] in H. destruct (step_v0 len st nd) as [st1|p] eqn:E; [|discriminate].
+  unfold no_true_false. cbn [forallb]. apply andb_true_iff. split; [|exact (IH st1 H)].
+  destruct nd; try reflexivity; cbn in E; discriminate.
+Qed.
+
+Theorem v0_ok_no_true_false C n F : to_cnf_v0 C n = Ok F -> no_true_false C = true.
+Proof.
+  unfold to_cnf_v0. destruct (run_v0 (length C) C (init_state n)) as [st|p] eqn:E; [|discriminate].
+  intros _. exact (run_v0_no_true_false _ _ _ _ E).
+Qed.
+
+(* where the old code returned a CNF, the repaired code returns the same CNF *)
+Lemma step_v0_done len st nd st' : step_v0 len st nd = Done st' -> step len st nd = Done st'.
+Proof.
+  destruct nd as [l|cs|cs| |]; cbn [step_v0 step]; try discriminate; try (intros H; exact H);
+    unfold step_op_v0, step_op, step_lits, transform_operation_v0;
+    destruct (nodes_to_literals len cs (ts_lits st)) as [lits|p]; try discriminate;
+    destruct lits as [|l1 lits]; try discriminate; intros H; exact H.
+Qed.
+
+Lemma run_v0_done len C st st' : run_v0 len C st = Done st' -> run len C st = Done st'.
+Proof.
+  revert st. induction C as [|nd C IH]; intros st H; [exact H|].
+  cbn [run_v0] in H. cbn [run]. destruct (step_v0 len st nd) as [st1|p] eqn:E; [|discriminate].
+  rewrite (step_v0_done _ _ _ _ E). now apply IH.
+Qed.
+
+Theorem v0_ok_same C n F : to_cnf_v0 C n = Ok F -> to_cnf C n = Ok F.
+Proof.
+  unfold to_cnf_v0, to_cnf. destruct (run_v0 (length C) C (init_state n)) as [st|p] eqn:E; [|discriminate].
+  now rewrite (run_v0_done _ _ _ _ E).
+Qed.
 
 (* ---------- witnesses ---------- *)
 
 (* the flattened `nnf 4 3 2 / A 0 / L 1 / L 2 / A 3 0 1 2` (c2d with a true node) *)
 Definition ex_true_node : circuit := [TrueN; Lit 1; Lit 2; And [2; 1; 0]%nat].
 
-Theorem refuted_true_node :
-  exists C n, WF C n /\ all_reachable C = true /\ (2 <= n)%nat /\ to_cnf C n = Panic PanicTrue.
+Theorem v0_refuted_true_node :
+  exists C n, WF C n /\ all_reachable C = true /\ (2 <= n)%nat /\ to_cnf_v0 C n = Panic PanicTrue.
 Proof.
   exists ex_true_node, 2%nat. split; [apply check_wf_sound; vm_compute; reflexivity|].
   split; [vm_compute; reflexivity|]. split; [lia|vm_compute; reflexivity].
@@ -99,9 +160,9 @@ Definition ex_empty_or : circuit :=
   [Lit (-1); Lit 2; And [1; 0]%nat; Lit 1; Or []; And [4; 3]%nat; Lit (-2); Or [6; 1]%nat;
    And [7; 5]%nat; Or [8; 2]%nat].
 
-Theorem refuted_empty_operation :
+Theorem v0_refuted_empty_operation :
   exists C n, WF C n /\ all_reachable C = true /\ no_true_false C = true /\ (2 <= n)%nat /\
-              to_cnf C n = Panic PanicEmptyOp.
+              to_cnf_v0 C n = Panic PanicEmptyOp.
 Proof.
   exists ex_empty_or, 2%nat. split; [apply check_wf_sound; vm_compute; reflexivity|].
   split; [vm_compute; reflexivity|]. split; [vm_compute; reflexivity|].
@@ -123,4 +184,14 @@ Proof.
   { constructor; try (vm_compute; reflexivity); [discriminate|].
     apply det_cert_sound; vm_compute; reflexivity. }
   split; [lia|]. split; [vm_compute; reflexivity|]. split; vm_compute; reflexivity.
+Qed.
+
+(* Why 2 <= n is a hypothesis: a model that is a single literal allocates no variable and
+   Cnf::from returns the EMPTY CNF (`p cnf 0 0`), which says nothing about feature 1. *)
+Theorem two_features_needed :
+  exists C F, WF C 1 /\ all_reachable C = true /\ to_cnf C 1 = Ok F /\
+              Models C 1 = [[1]] /\ map (firstn 1) (cnf_models F) = [[]] /\ header_of F = (0%nat, 0%nat).
+Proof.
+  exists [Lit 1], (mkCnf 0 []). split; [apply check_wf_sound; vm_compute; reflexivity|].
+  repeat split; vm_compute; reflexivity.
 Qed.
